@@ -4,10 +4,19 @@ from props import treelib as T
 
 ID = "C02"
 LEAN_MODULES = ["Ccp.Props.C02"]
-RULE = ("exhaustive: every sequence of length <= 4 (quick) / <= 5 (thorough) over {indent 0..3} x {config, comment, blank}, "
-        "two texts per symbol; random beyond (length <= 40, indents <= 9, tabs/NBSP/EM SPACE in the indent, leading indented "
-        "lines, custom comment delimiters); no banner or macro starts (the property is about lines outside such bodies); "
-        "x syntax x factory. non-trivial = some line is indented; distinct by request.")
+RULE = ("stream 1 (indentation only, no banner/macro start): exhaustive, every sequence of length <= 4 (quick) / <= 5 (thorough) over "
+        "{indent 0..3} x {config, comment, blank}, two texts per symbol; random beyond (length <= 40, indents <= 9, tabs/NBSP/EM SPACE "
+        "in the indent, leading indented lines, custom comment delimiters) x syntax x factory. "
+        "stream 2 (banner / macro bodies, what parse_links_eq_spec_full talks about): exhaustive, every sequence of length <= 4 (quick) / "
+        "<= 5 (thorough) containing a start over {two banner starts with different delimiters, macro start, closing line plain / "
+        "indented / embedded for each delimiter, '@', body lines at indent 1, 2, 0, blank} x {ios, nxos}; random token sequences "
+        "(length <= 14: ten banner-start forms incl. one-line, delimiter-less, set-prefixed, fail-message, four macro-start forms, "
+        "closing lines at indents 0..2, '@' with trailing / leading white space, comments, deeper body lines, dedenting tails) and "
+        "banner / macro blocks of C01's generator spliced INTO one another (nested and overlapping starts, macro inside banner and "
+        "banner inside macro, unterminated stretches), x syntax x comment delimiters x ignore_blank_lines (25 %). The buckets "
+        "'feat:*' count how many cases show each situation (overlap beyond the outer end, banner outliving a macro, indented closing "
+        "line, line after a stretch whose indentation parent is a body line, ...). "
+        "non-trivial = some line is indented or a banner / macro start is present; distinct by request.")
 LEVEL_TEXT = ("Theorems (Lean 4, all line lists, no size bound): cache_inv -- the parent cache of the bootstrap loop is sound (every cached "
               "entry k->p is the walk-back answer for indent k over the processed lines and 0 < k <= max_indent; holds initially, preserved "
               "by every iteration, and under it the chosen parent is the specified one); linkByIndent_eq_spec -- pass 1 returns one parent "
@@ -16,21 +25,36 @@ LEVEL_TEXT = ("Theorems (Lean 4, all line lists, no size bound): cache_inv -- th
               "linkByIndent_children -- derived child lists = specified children; parse_links_eq_spec -- for lists without banner start and "
               "(ios) macro start, ignore_blank_lines off, the final tree after bootstrap + commit has texts = input, parents = spec, children = "
               "spec; parse_links_eq_spec_ignore_blank -- the same with ignore_blank_lines on, over the non-blank lines; links_syntax_independent / parse_links_syntax_independent -- links depend on the configuration only through the comment "
-              "delimiters, not the syntax. Tied to the code by exhaustive small patterns and random configs.")
-LEVEL_NOTE = ("Trusted: Lean kernel, standard axioms, the harness. The final-tree theorems exclude banner/macro starts as the property does "
-              "(hypotheses on the line list); the typed-model factory is not modelled (links compared by the correspondence "
-              "with factory on and off).")
-ASSUMPTIONS = ["line texts contain no banner / macro start (generator-enforced)"]
-TRUSTED = []
+              "delimiters, not the syntax. BANNER AND MACRO BODIES INCLUDED (Spec/BannerLinks.lean, no hypotheses on the line list): "
+              "specParentFull(i) = the last 'macro name' line (syntax ios) whose stretch reaches i, else the last banner start whose stretch "
+              "reaches i, else specParent(i); stretch of a banner start with recognised delimiter d occurring once on the start line = the "
+              "following lines up to AND INCLUDING the first one containing d (to the end of the config if none), empty for a one-line or "
+              "delimiter-less banner; stretch of a macro start = up to and including the first '@' line (coverB_spec, coverM_spec, "
+              "bannerStretch_eq_body_plus_close, covers_spec, lastCover_some/_none, specParentFull_spec state this reading position by "
+              "position). link_links_eq_spec_full -- passes 1-3 return texts unchanged, parents = specParentFull, child lists = "
+              "specChildrenFull for EVERY line list (nested / overlapping / unterminated starts included); parse_links_eq_spec_all -- the "
+              "final tree after bootstrap + commit under every option set has parents = specParentFull of its own texts; "
+              "parse_links_eq_spec_full -- with ignore_blank_lines off: texts = input, parents and children = the full spec (this drops both "
+              "hypotheses of parse_links_eq_spec); parse_links_eq_spec_full_ignore_blank -- with ignore_blank_lines on: texts = the lines "
+              "selected by C01's keepSpec, links = the full spec over those kept lines; specParentFull_eq_specParent_of_no_start -- without "
+              "starts the full spec is the indentation rule; parse_links_syntax_independent_full -- equal delimiter sets and no 'macro name' "
+              "line give equal final parents, banners included. Tied to the code by exhaustive small patterns and random configs "
+              "(indentation-only and banner/macro-heavy streams).")
+LEVEL_NOTE = ("Trusted: Lean kernel, standard axioms, the harness. The per-line recognisers the specification is built from (isBannerStart, "
+              "bannerDelim -- hand-written scanners for the two banner regexes, with \\w restricted to code points < 256 -- and isMacroStart) "
+              "are modelled, not verified: the correspondence compares them with the real regexes on every run and the generator stays "
+              "inside that region. The typed-model factory is not modelled (links compared by the correspondence with factory on and off).")
+ASSUMPTIONS = ["banner type words use only word characters < U+0100 (generator-enforced)"]
+TRUSTED = ["hand-written scanners for the banner regexes"]
 EXHAUSTIVE = {"quick": True, "thorough": True}
 
 
-def mk(syntax, factory, delims, lines, origin="gen"):
-    return T.mk_case("links", syntax, factory, False, delims, lines, origin)
+def mk(syntax, factory, delims, lines, origin="gen", ignore_blank=False):
+    return T.mk_case("links", syntax, factory, ignore_blank, delims, lines, origin)
 
 
 def from_corpus(c):
-    return mk(c["syntax"], c.get("factory", False), c.get("delims"), c["lines"], "corpus")
+    return mk(c["syntax"], c.get("factory", False), c.get("delims"), c["lines"], "corpus", c.get("ignore_blank", False))
 
 
 SAFE_WORDS = ["cmd", "other", "interface Ethernet1", "ip address 1.1.1.1 255.0.0.0", "x(y", "a.b*", "{", "}", "été", "€5", "end"]
@@ -64,16 +88,35 @@ def cases(rng, tier):
     for _ in range(n):
         delims = rng.choice(T.DELIM_SETS)
         yield mk(rng.choice(T.SYNTAXES), rng.random() < 0.15, delims, rand_lines(rng, delims))
+    # stream 2: banner / macro bodies
+    if tier != "search":
+        k = 0
+        for lines in T.link_pattern_configs(4 if tier == "quick" else 5):
+            yield mk(("ios", "nxos")[k % 2], False, None, lines, "link-pattern")
+            k += 1
+    n2 = {"quick": 2400, "thorough": 60000, "search": 4000}[tier]
+    for k in range(n2):
+        delims = rng.choice(T.DELIM_SETS)
+        lines = T.rand_link_config(rng, delims) if k % 2 == 0 else T.rand_nested_config(rng, delims)
+        yield mk(rng.choice(["ios", "ios"] + T.SYNTAXES), rng.random() < 0.1, delims, lines,
+                 "link-random" if k % 2 == 0 else "link-nested", rng.random() < 0.25)
+
+
+def has_start(lines):
+    return any(T.BANNER_RE.search(l) or l[:11] == "macro name " for l in lines)
 
 
 def neighbours(case, rng):
+    heavy = has_start(case["lines"])
     for _ in range(200):
         ls = list(case["lines"])
         if len(ls) > 1 and rng.random() < 0.6:
             del ls[rng.randrange(len(ls))]
+        elif heavy:
+            ls.insert(rng.randrange(len(ls) + 1), rng.choice(T.LINK_TOKENS))
         else:
             ls.insert(rng.randrange(len(ls) + 1), rand_lines(rng, case["delims"])[0])
-        yield mk(case["syntax"], case["factory"], case["delims"], ls)
+        yield mk(case["syntax"], case["factory"], case["delims"], ls, "gen", case["ignore_blank"])
 
 
 def impl(case):
@@ -90,7 +133,12 @@ def oracle(case, ans):
     if ans.startswith("err:"):
         return [] if case["factory"] else [f"parse raised {ans}"]
     parents_w, children_w = ans.split("|")
-    want = T.ref_parents(case["lines"], T.cfg_delims(case["syntax"], case["delims"]))
+    # the lines that remain (C01's reference), then the validated full link specification on them; without
+    # banner / macro starts ref_parents_full IS the indentation rule ref_parents
+    kept = T.ref_kept(case["lines"], case["syntax"] == "ios", case["ignore_blank"])
+    want = T.ref_parents_full(kept, case["syntax"] == "ios", T.cfg_delims(case["syntax"], case["delims"]))
+    if not has_start(kept):
+        assert want == T.ref_parents(kept, T.cfg_delims(case["syntax"], case["delims"]))
     fails = []
     if parents_w != wire.enc_nats(want):
         fails.append(f"parents {parents_w[:80]} expected {wire.enc_nats(want)[:80]}")
@@ -101,14 +149,20 @@ def oracle(case, ans):
 
 
 def nontrivial(case):
-    return any(l[:1].isspace() for l in case["lines"])
+    return any(l[:1].isspace() for l in case["lines"]) or has_start(case["lines"])
 
 
 def describe(case):
-    return {k: case[k] for k in ("syntax", "factory", "delims", "lines")}
+    return {k: case[k] for k in ("syntax", "factory", "ignore_blank", "delims", "lines")}
 
 
 def buckets(case, ans):
-    return ["syntax:" + case["syntax"], "factory:%d" % case["factory"], "delims:" + str(case["delims"]),
-            "len:%d" % min(41, len(case["lines"])), "origin:" + case.get("_origin", "gen"),
-            "answer:" + (ans if ans.startswith("err:") else "ok")]
+    out = ["syntax:" + case["syntax"], "factory:%d" % case["factory"], "delims:" + str(case["delims"]),
+           "len:%d" % min(41, len(case["lines"])), "origin:" + case.get("_origin", "gen"),
+           "ignore_blank:%d" % case["ignore_blank"],
+           "answer:" + (ans if ans.startswith("err:") else "ok")]
+    if has_start(case["lines"]):
+        kept = T.ref_kept(case["lines"], case["syntax"] == "ios", case["ignore_blank"])
+        feats = T.link_features(kept, case["syntax"] == "ios", T.cfg_delims(case["syntax"], case["delims"]))
+        out += ["feat:" + f for f in sorted(feats)] or ["feat:none"]
+    return out
